@@ -24,7 +24,7 @@ static std::string spec_desc(const RspSpec& s)
         d += " send body=" + std::to_string(s.bodyLen) + (s.useMimeArg ? " +mime" : "") + " max=" + std::to_string(s.maxResponse);
     else
     {
-        d += " stream(" + std::to_string(s.streamSize) + "):";
+        d += " stream(" + std::to_string(s.streamSize) + (s.moveStream ? ",moved" + std::to_string(s.moveStream) : std::string()) + "):";
         for (auto& op : s.ops)
             d += std::string(op.kind == OP_WRITE ? " write" : op.kind == OP_CSTR ? " cstr" : op.kind == OP_INT ? " int" : " flush") + (op.kind == OP_FLUSH ? "" : ":" + std::to_string(op.n));
     }
@@ -136,7 +136,8 @@ static void caseB(uint64_t i, vr::Ctx& ctx)
     static const size_t streamSizes[] = { 1, 64, 512 };
     RspSpec s;
     s.stream       = true;
-    s.ops          = gPrograms[i / 3];
+    s.ops          = gPrograms[i / 9];
+    s.moveStream   = int((i / 3) % 3);
     s.streamSize   = streamSizes[i % 3];
     s.code         = gCodes[i % gCodes.size()];
     s.headers      = gHdrSets[i % gHdrSets.size()];
@@ -217,7 +218,7 @@ int main(int argc, char** argv)
     int Kops        = opt.geti("Kops", 2);
     build_space(thorough, Kops);
     nA = (uint64_t)gCodes.size() * gHdrSets.size() * gCookieSets.size();
-    nB = (uint64_t)gPrograms.size() * 3;
+    nB = (uint64_t)gPrograms.size() * 9;
     nC = gReqs.size();
     return vr::run(opt, nA + nB + nC, [](uint64_t idx, vr::Ctx& ctx) {
         ctx.count("executions", 1);
